@@ -1,48 +1,15 @@
-// Driver for the Exec family (C11, C12, C13).
+// Driver for the Exec family (C11, C12, C13): block execution over script transactions.
 package main
 
 import (
-	"encoding/json"
-	"fmt"
-	"os"
-	"time"
-
 	"verif/harness/core"
 )
-
-func probe(env *core.Env, args []string) int {
-	t0 := time.Now()
-	r, err := NewRig(env.Opt("para", "0") == "1", env.Opt("plugins", "default"))
-	if err != nil {
-		fmt.Fprintln(os.Stderr, "rig:", err)
-		return 2
-	}
-	defer func() { t := time.Now(); r.Close(); fmt.Fprintln(os.Stderr, "close in", time.Since(t)) }()
-	fmt.Fprintln(os.Stderr, "node up in", time.Since(t0))
-	ex := env.Opt("exec", "verifx")
-	la := "LODB-" + ex + "-a"
-	items := [][]TxSpec{
-		{{Exec: ex, Script: []Op{{O: "L", K: la, V: "1", M: "ret"}}}, {Exec: ex, Script: []Op{{O: "F"}}}},
-		{{Exec: ex, Script: []Op{{O: "S", K: "mavl-" + ex + "-x", V: "1", M: "both"}}}},
-		{{Exec: ex, Script: []Op{{O: "RL", K: la}, {O: "RS", K: "mavl-" + ex + "-x"}}}},
-	}
-	t0 = time.Now()
-	blk, fee, err := r.BuildBlock(items, 0)
-	if err != nil {
-		fmt.Fprintln(os.Stderr, "build:", err)
-		return 2
-	}
-	out := r.Connect(blk, fee)
-	fmt.Fprintln(os.Stderr, "block in", time.Since(t0))
-	b, _ := json.MarshalIndent(out, "", " ")
-	fmt.Println(string(b))
-	return 0
-}
 
 func main() {
 	core.Main(&core.Family{
 		Name:      "Exec",
-		NewDriver: func() core.Driver { return nil },
-		Extra:     map[string]func(env *core.Env, args []string) int{"probe": probe},
+		NewDriver: newDriver,
+		Recorders: map[string]core.Recorder{"default": recDet, "det": recDet},
+		Extra:     map[string]func(env *core.Env, args []string) int{"child": childMain},
 	})
 }
